@@ -232,8 +232,9 @@ class Sc(Sym):
 class Stack(Model):
     kinds = ("ndarray",)
 
-    def __init__(self, elems):
+    def __init__(self, elems, inner_shape=None):
         self.elems = list(elems)
+        self.inner_shape = inner_shape        # the shape of every element when known (e.g. (nz, ny, nx) of the kernel output)
 
     @property
     def origin(self):
@@ -247,6 +248,9 @@ class Stack(Model):
             first, rest = idx[0], idx[1:]
             if any(r is not Ellipsis and r != slice(None) for r in rest):
                 base = self[first]
+                if isinstance(base, Stack) and self.inner_shape is not None and len(rest) == 1 and isinstance(rest[0], int):
+                    # arr[:, k]: sample k along the first inner axis of every element
+                    return Stack([Sym(("take", origin_of(e), rest[0])) for e in base.elems], tuple(self.inner_shape[1:]))
                 return base[rest] if not isinstance(base, Stack) else Stack([e[rest] for e in base.elems])
             return self[first]
         if isinstance(idx, int):
@@ -256,7 +260,7 @@ class Stack(Model):
                 from .models import Raised
                 raise Raised("IndexError", None, "index %d out of bounds for %d slots" % (idx, len(self.elems)))
         if isinstance(idx, slice):
-            return Stack(self.elems[idx])
+            return Stack(self.elems[idx], self.inner_shape)
         raise Unsupported("Stack indexed with %r" % (idx,))
 
     def __setitem__(self, idx, value):
@@ -286,6 +290,8 @@ class Stack(Model):
 
     @property
     def shape(self):
+        if self.inner_shape is not None:
+            return (len(self.elems),) + tuple(self.inner_shape)
         return Shape(("shape", self.origin))
 
     def __repr__(self):
